@@ -129,14 +129,22 @@ def model_cmd_line(step, res, keys=None):
 OUTCOME_ERR = {0: None, 1: "deadline", 2: "lost", 3: "other", 4: "panic"}
 
 
-def check_cmd_step(ch, fam, step, res, model, desc):
+def check_cmd_step(ch, fam, step, res, model, desc, udp=False):
     """tie for one command step: transmissions, completion code, error class; returns the model's payload"""
     m = parse_loop(model)
     ok = True
     why = []
     if m["sent"] != res["sent"]:
-        ok = False; why.append("transmitted datagrams differ")
+        # over real sockets the transcript pairs each datagram with the reply the BMC gave, not with what the library had
+        # read when its window closed: a reply that arrived late costs a retransmission the model cannot know of
+        if not (udp and len(res["sent"]) > len(m["sent"]) and res["sent"][:len(m["sent"])] == m["sent"] and step.get("conn") != "session"):
+            if not (udp and step.get("conn") == "session" and len(res["sent"]) > len(m["sent"])):
+                ok = False; why.append("transmitted datagrams differ")
     go_err = res["err"]
+    if udp and go_err in ("other", "lost") and "i/o timeout" in (res.get("errtext") or "") and m["outcome"] == 0:
+        # real sockets: the reply the transcript shows arrived after the attempt's window had closed (a busy machine);
+        # what the library then did is judged by the property's predicate, not by this tie
+        return m
     if m["outcome"] == 0:
         if go_err not in ("nil", "other"):
             ok = False; why.append("model: final response, impl error %s" % go_err)
